@@ -83,6 +83,9 @@ pub struct Model<'a> {
     pub usage_marks: Vec<(usize, Label)>,
     /// positions in `out` at which a conditional directive was removed (start and end of every chain's contribution)
     pub cond_barriers: Vec<usize>,
+    /// ids of definitions produced by expanding the maker macro, and how often such a macro was expanded at top level
+    pub generated_ids: std::collections::BTreeSet<usize>,
+    pub generated_def_expansions: usize,
     pub table: Table,
     /// statistics for non-triviality rules
     pub expansions: usize,
@@ -127,6 +130,8 @@ impl<'a> Model<'a> {
             chunks: Vec::new(),
             usage_marks: Vec::new(),
             cond_barriers: Vec::new(),
+            generated_ids: Default::default(),
+            generated_def_expansions: 0,
             table: initial,
             expansions: 0,
             nested_expansions: 0,
@@ -441,11 +446,27 @@ impl<'a> Model<'a> {
                     Some(Some(d)) => (d.origin.clone(), d.def.id),
                     _ => (DefOrigin::Caller, 0),
                 };
+                if self.generated_ids.contains(&def_id) {
+                    self.generated_def_expansions += 1;
+                }
                 let s = self.expand_usage(u, 0).map_err(wrap)?;
                 // remembered even when the expansion is empty: the implementation's expansion may still hold white space
                 self.usage_marks.push((self.out.len(), Label::Macro(origin.clone(), def_id)));
                 self.emit(&s, Label::Macro(origin, def_id));
                 self.emit(ws, Label::File(file));
+            }
+            Item::DefineVia(u, def, ws) => {
+                let (origin, def_id) = match self.table.get(&u.name) {
+                    Some(Some(d)) => (d.origin.clone(), d.def.id),
+                    _ => (DefOrigin::Caller, 0),
+                };
+                let s = self.expand_usage(u, 0).map_err(wrap)?;
+                self.usage_marks.push((self.out.len(), Label::Macro(origin.clone(), def_id)));
+                self.emit(&s, Label::Macro(origin, def_id));
+                self.emit(ws, Label::File(file));
+                // the expansion is a `define: it takes effect, written (as far as origins go) in the file being read
+                self.table.insert(def.name.clone(), Some(MDef { def: def.clone(), origin: DefOrigin::File(file) }));
+                self.generated_ids.insert(def.id);
             }
             Item::FileMacro(ws) => {
                 let p = self.opened_as(file);
